@@ -142,6 +142,16 @@ def t_mandoline3d_plt(env, out, serial):
         Mandoline(env["p3"], fields=["temp", "Z"], serial=serial, verbose=0).slice(normal=0, pos=env["pos3x"], outfile=out, fformat="plotfile")
 
 
+def t_mandoline3d_far(env, out, serial):
+    """a plane that no box of the finest level meets or neighbours: that level has NO task"""
+    from amr_kitchen.mandoline import Mandoline
+    with poisoned(["amr_kitchen.mandoline.mandoline"], 0):
+        m = Mandoline(env["p3half"], fields=["temp", "Z", "grid_level"], serial=serial, verbose=0)
+        r = m.slice(normal=1, pos=env["pos3far"], fformat="return")
+        m.slice(normal=1, pos=env["pos3far"], outfile=out, fformat="plotfile")
+        return [r]
+
+
 def t_mandoline2d(env, out, serial):
     from amr_kitchen.mandoline import Mandoline
     with poisoned(["amr_kitchen.mandoline.mandoline"], 0):
@@ -179,7 +189,8 @@ TOOLS = {"reader_slice": (t_reader_slice, False), "reader_iter": (t_reader_iter,
          "taste_bad": (t_taste_bad, False), "colander": (t_colander, False), "colander2d": (t_colander2d, False),
          "combine_byfile": (t_combine_byfile, False), "combine_bybox": (t_combine_bybox, False), "chef": (t_chef, True),
          "chef_cantera": (t_chef_cantera, True),
-         "mandoline3d": (t_mandoline3d, True), "mandoline3d_plt": (t_mandoline3d_plt, True), "mandoline2d": (t_mandoline2d, True),
+         "mandoline3d": (t_mandoline3d, True), "mandoline3d_plt": (t_mandoline3d_plt, True), "mandoline3d_far": (t_mandoline3d_far, True),
+         "mandoline2d": (t_mandoline2d, True),
          "pestle": (t_pestle, False), "whip": (t_whip, False), "chk2plt": (t_chk2plt, False)}
 
 
@@ -301,6 +312,10 @@ def make_env(workdir, seed, tag=""):
     env["recipe"] = os.path.join(workdir, "r.py")
     with open(env["recipe"], "w") as f:
         f.write(RECIPE)
+    half = dict(scope.named_meshes(3)[1], fields=["temp", "density", "Z"], payload="signed", seed=seed,
+                layout=[{"files": [[1], [0]], "nums": [0, 1]}, {"files": [[1, 0]], "nums": [3]}])
+    env["p3half"], refh = build(half, workdir, "plt00014" + tag)
+    env["pos3far"] = refh.geo_lo[1] + 0.75 * refh.dx[1][1]        # fine boxes start at y index 2; both level-0 boxes meet the plane
     env["pos3"] = ref3.geo_lo[2] + 1.25 * ref3.dx[1][2]
     env["pos3x"] = ref3.geo_lo[0] + 2.0 * ref3.dx[0][0]
     env["pos3gap"] = ref3.geo_lo[0] + 2.25 * ref3.dx[0][0]       # in the half-cell gap next to a face shared by two level-0 boxes
